@@ -1469,7 +1469,11 @@ yin_print_parsed_submodule(struct ly_out *out, const struct lysp_submodule *subm
 
     ly_print_(pctx->out, "<?xml version=\"1.0\" encoding=\"UTF-8\"?>\n");
     ly_print_(pctx->out, "%*s<submodule name=\"%s\"\n", INDENT, submodp->name);
-    ypr_xmlns(pctx, submodp->mod, XML_NS_INDENT);
+    /* the namespace of the module under the prefix the submodule uses for it */
+    ly_print_(pctx->out, "%*sxmlns=\"%s\"", XML_NS_INDENT + INDENT, YIN_NS_URI);
+    ly_print_(pctx->out, "\n%*sxmlns:%s=\"", XML_NS_INDENT + INDENT, submodp->prefix);
+    lyxml_dump_text(pctx->out, submodp->mod->ns, 1);
+    ly_print_(pctx->out, "\"");
     ypr_import_xmlns(pctx, (struct lysp_module *)submodp, XML_NS_INDENT);
     ly_print_(pctx->out, ">\n");
 
